@@ -26,6 +26,13 @@ CHECKS = {
         note="Trusted: TLC, CommunityModules JSON reader, CPython/numpy. Exhaustive only for the enumerated small grids; float arguments are dyadic so the documented int(f*n) normalisation is exact. The clause on the requested number of accessible cells uses the harness's own normalisation of the argument, not the code's metadata.",
         technique="TLA+ model checking (TLC) of the generators' metadata invariants + exhaustive scripted-RNG execution of the real code judged by the spec's clauses",
     ),
+    "C19": dict(
+        category="model_checking",
+        text="GenWilson.tla's complete TLC state graph (2x2, 2x3, 3x2, 3x3) is turned into an absorbing Markov chain and its absorption distribution is judged by the TLA+ definition of uniformity (Uniform!DistClauses: terminal set = all spanning trees of the lattice, each with probability exactly 1/N). The same decision is then made on the REAL code's own chain, learned without the model by scripting numpy's RNG and snapshotting gen_wilson's loop heads (every answer of every request at every discovered state: 19 226 transitions on 3x3), solved exactly with fractions (<= 2x3) or by power iteration (3x3); the learned chain is also compared with the model's chain state by state (Layer M). A real-RNG frequency experiment per grid is judged by a chi-square bound in TLA+ as an independent fallback.",
+        design_ref="DESIGN.md §3 C19",
+        note="Trusted: TLC, the dot/TLA+-value parser, CPython/numpy, numpy's choice(n)/randint being uniform, the loop-head snapshot being a sufficient statistic of gen_wilson's state. Exact only on the listed grids. The frequency test has a stated false-alarm probability of 1e-9 per experiment.",
+        technique="TLA+ model (TLC state graph as Markov chain) + exact absorption analysis of the code's own learned chain judged by a TLA+ uniformity predicate",
+    ),
 }
 
 NOT_YET = {}
